@@ -21,7 +21,7 @@ TRUSTED = ["the TWAP geometric mean is an oracle value captured from the real ca
            "absorbed by a 1e-12 relative allowance)"]
 ASSUMPTIONS = ["frozen market: every row of the TWAP window equals the current row, the oSQTH/WETH pool's price equals the squeeth row's OSQTH price, "
                "account prices are the ones derived from the same row (WETH, OSQTH*WETH)",
-               "pool orientation token0 = WETH = quote; Broker.allow_negative_balance = False; account quote token USD"]
+               "the model knows the pool orientation token0 = WETH = quote (pools with token0 = oSQTH, 1 world in 6, are oracle-only); Broker.allow_negative_balance = False; account quote token USD"]
 
 DUST = F(1, 10 ** 5)
 
